@@ -30,6 +30,8 @@ type Solver struct {
 	timeout  int // ms per query
 	dead     bool
 	hist     strings.Builder // full script of the current path (only when GOSYM_SLOWQ_DIR is set)
+	base     strings.Builder // declarations, definitions and top-level assertions of the current path (cross-check)
+	nX       int
 }
 
 func NewSolver(kind string, timeoutMs int) (*Solver, error) {
@@ -77,6 +79,71 @@ func NewSolver(kind string, timeoutMs int) (*Solver, error) {
 }
 
 var slowDir = os.Getenv("GOSYM_SLOWQ_DIR")
+
+// xcheckSolver names a second solver ("z3-new" or "cvc5") on which every
+// GOSYM_XCHECK_EVERY-th assertion query is re-decided from scratch (one-shot, full
+// tactic pipeline); a different verdict makes the run inconclusive.
+var xcheckSolver = os.Getenv("GOSYM_XCHECK")
+var xcheckEvery = func() int {
+	n, _ := strconv.Atoi(os.Getenv("GOSYM_XCHECK_EVERY"))
+	if n <= 0 {
+		n = 10
+	}
+	return n
+}()
+var xcheckSeq int64
+
+// CrossCheck re-decides pc AND extra on the second solver. ok=false: not run / no verdict.
+func (s *Solver) CrossCheck(extra *Term) (SatResult, bool) {
+	if xcheckSolver == "" || atomic.AddInt64(&xcheckSeq, 1)%int64(xcheckEvery) != 0 {
+		return Unknown, false
+	}
+	var sb strings.Builder
+	if xcheckSolver == "cvc5" {
+		sb.WriteString("(set-logic QF_BV)\n")
+	}
+	sb.WriteString(s.base.String())
+	if extra != nil {
+		defs := map[int]bool{}
+		for k, v := range s.defined {
+			defs[k] = v
+		}
+		var d strings.Builder
+		r := extra.smtRef(defs, &d)
+		sb.WriteString(d.String())
+		fmt.Fprintf(&sb, "(assert %s)\n", r)
+	}
+	sb.WriteString("(check-sat)\n")
+	dir := os.Getenv("GOSYM_TMP")
+	if dir == "" {
+		dir = os.TempDir()
+	}
+	f, err := os.CreateTemp(dir, "xcheck-*.smt2")
+	if err != nil {
+		return Unknown, false
+	}
+	defer os.Remove(f.Name())
+	f.WriteString(sb.String())
+	f.Close()
+	var cmd *exec.Cmd
+	switch xcheckSolver {
+	case "cvc5":
+		cmd = exec.Command("cvc5", "--lang=smt2", "--tlimit=60000", f.Name())
+	default:
+		cmd = exec.Command(xcheckSolver, "-T:60", f.Name())
+	}
+	out, _ := cmd.CombinedOutput()
+	txt := strings.TrimSpace(string(out))
+	s.nX++
+	switch {
+	case strings.HasPrefix(txt, "unsat"):
+		return Unsat, true
+	case strings.HasPrefix(txt, "sat"):
+		return Sat, true
+	}
+	return Unknown, false
+}
+
 var slowSeq int64
 
 func (s *Solver) dumpSlow(d time.Duration, res string) {
@@ -113,6 +180,7 @@ func (s *Solver) Reset() {
 	}
 	s.defined = map[int]bool{}
 	s.hist.Reset()
+	s.base.Reset()
 }
 
 func (s *Solver) Assert(t *Term) {
@@ -121,6 +189,9 @@ func (s *Solver) Assert(t *Term) {
 	fmt.Fprintf(&sb, "(assert %s)\n", r)
 	if slowDir != "" {
 		s.hist.WriteString(sb.String())
+	}
+	if xcheckSolver != "" {
+		s.base.WriteString(sb.String())
 	}
 	s.send(sb.String())
 }
@@ -179,6 +250,9 @@ func (s *Solver) CheckWith(extra *Term, wantVars []*Term) (SatResult, []uint64, 
 	}
 	for _, v := range wantVars {
 		v.smtRef(s.defined, &sb)
+	}
+	if xcheckSolver != "" {
+		s.base.WriteString(sb.String()) // definitions emitted outside the push
 	}
 	sb.WriteString("(push 1)\n")
 	if extra != nil {
